@@ -33,6 +33,11 @@ CORPUS_A = [
 ]
 
 CORPUS_B = [
+    # three inputs, two of them more than maxsize ahead, then the slow one catches up: every parked emit must complete
+    {"mode": "async", "flavour": "future", "nodes": [{"kind": "source", "ups": []}, {"kind": "source", "ups": []}, {"kind": "source", "ups": []},
+                                                      {"kind": "zipmax", "ups": [0, 1, 2], "maxsize": 1}, {"kind": "sink", "mode": "sync", "f": ["id"], "ups": [3]}],
+     "ops": [{"op": "settle"}] + [{"op": "emit", "node": n, "val": v, "md": []} for v in (1, 2, 3) for n in (0, 2)] +
+            [{"op": "emit", "node": 1, "val": v, "md": []} for v in (7, 8, 9)] + [{"op": "advance", "dt": 1}]},
     # recorded: map_async(parallelism=1) has two jobs in flight
     {"mode": "async", "flavour": "future", "nodes": [{"kind": "source", "ups": []}, {"kind": "map_async", "f": ["inc"], "parallelism": 1, "ups": [0]},
                                                       {"kind": "sink", "mode": "sync", "f": ["id"], "ups": [1]}],
@@ -82,13 +87,12 @@ def threaded_sample(ctx, n):
 
 
 def run(ctx):
-    ctx.audit(extra_modules=[m for m in lean_extra() if "Windows" not in m])
+    ctx.audit(extra_modules=lean_extra())
     n = 150 if not ctx.thorough() else 5000
     graphcheck.run_family(ctx, n, ASPECTS, CHECKS, SIGS_A, modes=("async",), corpus=CORPUS_A, flavours=("future", "coro", "tornado"))
     A.sweep(ctx, n, KINDS, ["backpressure"], SIGS_B, corpus=CORPUS_B)
     for m in corr_modules():
-        if not m.__name__.endswith("asyncwindows"):
-            m.run(ctx, "C03", 40 if not ctx.thorough() else 1500)
+        m.run(ctx, "C03", 40 if not ctx.thorough() else 1500)
     threaded_sample(ctx, 12 if not ctx.thorough() else 120)
     ctx.coverage["rule"] = ("(A) graph-family generator in asynchronous mode with harness-completed consumers of three flavours; (B) asynchronous pipelines as in C02 "
                             "with awaited and un-awaited producers; (C) 12/120 threaded blocking emits. Non-trivial as in C01/C02.")
@@ -98,7 +102,7 @@ def run(ctx):
 
 
 def replay(ctx, data):
-    ctx.audit(extra_modules=[m for m in lean_extra() if "Windows" not in m])
+    ctx.audit(extra_modules=lean_extra())
     case = data["case"]
     if case.get("threaded"):
         threaded_sample(ctx, 12)
